@@ -317,7 +317,13 @@ class Universe:
                 new.append(extra[st["c"] % len(extra)])
             if st["b"] % 3 == 0:
                 new.reverse()
-            O[p].setChildren([O[c] for c in new])
+            if new and not (extra and st["c"] % 2) and st["b"] % 3 != 0 and st["c"] % 4 == 2:
+                # the new children given as a lazy iterator over the present ones
+                wanted = set(new)
+                O[p].setChildren(x for x in O[p] if self.h[id(x)] in wanted)
+                self.probe("setChildren_from_iterator_over_own_children")
+            else:
+                O[p].setChildren([O[c] for c in new])
             for c in cur:
                 self.m_detach(p, c)
             for c in new:
